@@ -106,7 +106,34 @@ def build_arg(cls, shape, pairs, as_model=False):
         for k, v in pairs:
             o.add(k, v)
         return o
+    if shape in ('minimal-mapping', 'dupkeys-mapping'):
+        return MinimalMapping(pairs, dup=(shape == 'dupkeys-mapping'))
     raise ValueError(shape)
+
+
+class MinimalMapping(object):
+    """The least a mapping argument needs: keys() and [] (sqlite3.Row, many config/header objects).  With dup=True
+    keys() lists a repeated key as often as it occurs and [] answers with its FIRST value (email.message.Message)."""
+
+    def __init__(self, pairs, dup=False):
+        self._pairs = list(pairs)
+        self._dup = dup
+
+    def keys(self):
+        ks = [k for k, _ in self._pairs]
+        if self._dup:
+            return ks
+        out = []
+        for k in ks:
+            if k not in out:
+                out.append(k)
+        return out
+
+    def __getitem__(self, key):
+        hits = [v for k, v in self._pairs if k == key]
+        if not hits:
+            raise KeyError(key)
+        return hits[0] if self._dup else hits[-1]
 
 
 class Boom(Exception):
@@ -141,11 +168,18 @@ def arg_pairs_effective(shape, pairs):
     """What pairs the argument denotes (a dict collapses repeated keys)."""
     if shape == 'dict':
         return list(dict(pairs).items())
+    if shape in ('minimal-mapping', 'dupkeys-mapping'):
+        m = MinimalMapping(pairs, dup=(shape == 'dupkeys-mapping'))
+        return [(k, m[k]) for k in m.keys()]
     return list(pairs)
 
 
 def m_update(L, shape, pairs, kw):
     eff = arg_pairs_effective(shape, pairs) if shape != 'self' else None
+    if eff is not None and shape == 'dupkeys-mapping':
+        for k, v in eff:            # a mapping is applied key by key: d[k] = m[k]
+            L = m_drop(L, k) + [(k, v)]
+        eff = None
     if eff is not None:
         ks = set(k for k, _ in eff)
         L = [(a, b) for a, b in L if a not in ks]
@@ -301,6 +335,8 @@ class Run(object):
         """After an operation that failed part-way the model follows whichever permitted state the real object
         is in; the full observation vector then checks that every read agrees with it."""
         now = outcome(lambda: self.d.items(multi=True))
+        # (1, 1.0 and True are equal keys: prefer the candidate that also LOOKS the same)
+        candidates = sorted(candidates, key=lambda c: repr(list(c)) != repr(now[1]) if now[0] == 'ok' else 0)
         for c in candidates:
             if now == ('ok', list(c)):
                 self.L = list(c)
@@ -503,6 +539,24 @@ class Run(object):
                 self.fail('copy[%s]' % how, 'raised %s' % type(e).__name__)
             if c is d:
                 self.fail('copy[%s]' % how, 'returned the same object')
+            if how in ('copy.deepcopy', 'pickle2', 'pickle4', 'pickle5'):
+                # an OMD reachable from one of its own values (a registry that lists itself, parent links): the copy's
+                # inner reference must be the copy, as for a plain list of pairs
+                box = [d, 'payload']
+                d.add('zz-self', box)
+                try:
+                    cyc = copy.deepcopy(d) if how == 'copy.deepcopy' else pickle.loads(pickle.dumps(d, int(how[-1])))
+                    inner = cyc['zz-self'][0]
+                    ok = inner is cyc
+                except Exception as e:
+                    d.poplast('zz-self')
+                    self.fail('copy[%s]' % how, 'copying an OMD that contains itself raised %s' % type(e).__name__)
+                d.poplast('zz-self')
+                if not ok:
+                    self.fail('copy[%s]' % how, 'copy of an OMD reachable from its own value: the inner reference is a second '
+                              'object, not the copy itself')
+                if st is not None:
+                    st.monitor_evals += 1
             if type(c) is not type(d):
                 self.fail('copy[%s]' % how, 'type %s' % type(c).__name__)
             try:
@@ -574,7 +628,7 @@ class Check(object):
         if kind == 'delitem':
             return [kind, {'k': k}]
         if kind in ('update', 'update_extend', 'ior'):
-            shapes = ['list', 'tuple', 'iter', 'gen', 'dict', 'omd']
+            shapes = ['list', 'tuple', 'iter', 'gen', 'dict', 'omd', 'minimal-mapping', 'dupkeys-mapping']
             if kind != 'update_extend':
                 shapes.append('self')
             shape = r.choice(shapes + (['gen-raises'] if r.random() < 0.5 else []))
@@ -609,7 +663,7 @@ class Check(object):
         return [kind]
 
     def gen(self, r, ctx):
-        shape = r.choice(['empty', 'empty', 'list', 'iter', 'dict', 'omd', 'fromkeys', 'tuple'])
+        shape = r.choice(['empty', 'empty', 'list', 'iter', 'dict', 'omd', 'fromkeys', 'tuple', 'minimal-mapping', 'dupkeys-mapping'])
         a = {'shape': shape}
         if shape == 'fromkeys':
             a['keys'] = [r.choice(list(KEYS)) for _ in range(r.randint(0, 4))]
@@ -680,7 +734,8 @@ class Check(object):
         parts = [name]
         if 'shape' in a:
             parts.append({'list': 'pairs', 'tuple': 'pairs', 'iter': 'one-shot', 'gen': 'one-shot',
-                          'gen-raises': 'failing-iterable'}
+                          'gen-raises': 'failing-iterable', 'minimal-mapping': 'keys+getitem-mapping',
+                          'dupkeys-mapping': 'keys+getitem-mapping'}
                          .get(a['shape'], a['shape']) if name != 'new' else 'ctor-arg')
         if 'how' in a:
             parts.append(a['how'].rstrip('0123456789'))
